@@ -4,6 +4,8 @@ CONSTANTS
   CloseInFinally = TRUE
   Fams = {1, 2}
   MaxN = 3
+  ParamsFirst = FALSE
+  TimeoutErr = "CIMError"
   Upo = "N"
 INVARIANT ImplRefinesReq
 INVARIANT FlagsConsistent
